@@ -58,7 +58,8 @@ claimed = {
         "every field visited and reported exactly once in both extraction loops, widest size kept when fields share an address. "
         "The end-to-end equality with device memory for all field multisets is NOT decided (needs execution)."
         " Also R5.6 effect-free extraction, R5.7 constructors accept the full range 1..limit, R5.8 follow-up batches keep address and unit id, byte-order-aware accessors for multi-register types."
-        " Also R5.9: Validate accepts every well-formed field."),
+        " Also R5.9: Validate accepts every well-formed field."
+        " Also R5.10 (definitions stored as given) and R5.11 (= C04 window rules)."),
   note=ENGINE_NOTE,
   ref="DESIGN.md §3 C05"),
  "C06": dict(
@@ -123,7 +124,8 @@ claimed = {
         "else carrying reply content to the caller (R12.1-R12.3), for every reply and every corruption. User-supplied functions "
         "are outside the property."
         " R12.4: the recogniser sees received[0:total]."
-        " Also R12.5 (parser gets do's result unchanged) and R12.6 (= R3.4)."),
+        " Also R12.5 (parser gets do's result unchanged) and R12.6 (= R3.4)."
+        " R12.7: recogniser consulted on the whole frame also in Do."),
   note=ENGINE_NOTE,
   ref="DESIGN.md §3 C12"),
  "C13": dict(
@@ -150,7 +152,8 @@ claimed = {
         "requests are all handled in order within one read, the connection loop hands over exactly what was read and writes the "
         "reply before the next read. Exactly-once/in-order over all segmentations as a whole is NOT decided."
         " Also R15.5 one freshly allocated assembler per accepted connection, R15.6 classifier verdict depends on the header bytes only, accumulator returned on every loop exit."
-        " Also: no read bytes dropped (R15.4), parsed requests do not alias the input (R15.7)."),
+        " Also: no read bytes dropped (R15.4), parsed requests do not alias the input (R15.7)."
+        " R15.3 also forbids a return before the step and value receivers."),
   note=ENGINE_NOTE + " bytes.Buffer contract is modelled, not analysed.",
   ref="DESIGN.md §3 C15"),
  "C16": dict(
@@ -159,7 +162,8 @@ claimed = {
         "is an exception addressed with the frame's transaction id/unit/function and code 3 and no panic is possible (R16.2), the "
         "exception ADU layout (R16.3), origin and addressing of every reply the assembler emits (R16.4), recover-protected "
         "goroutines (R16.5), complete-frame consumption (R16.0). Handler-built responses are outside."
-        " R16.6: no write to package-level state on the per-connection path."),
+        " R16.6: no write to package-level state on the per-connection path."
+        " R16.7 (= R15.3)."),
   note=ENGINE_NOTE,
   ref="DESIGN.md §3 C16"),
  "C17": dict(
@@ -170,7 +174,8 @@ claimed = {
         "only after the reply write. Exact accounting under all interleavings, the full in-flight guarantee of Shutdown and "
         "bounded time are NOT decided (schedule exploration)."
         " Also R17.7 nil listener, R17.8 Shutdown scan flag is monotone and never up for an in-flight connection, R17.9 no exit leaves Server.mu held, R17.10 all replies of a read are handed back and written."
-        " R17.11 (= R16.6)."),
+        " R17.11 (= R16.6)."
+        " R17.12: reply write deadline from a fresh clock reading."),
   note=ENGINE_NOTE,
   ref="DESIGN.md §3 C17"),
  "C18": dict(
